@@ -174,6 +174,18 @@ def gen_program(ops):
         elif op == "mmap": store(t[1], f"{R(t[2])}.map((k, v) -> (v + {lit(t[3])}) % 1000)", "dm")
         elif op == "mall": out(f"Main.ob({R(t[1])}.forAll((k, v) -> {pred_kv(t[2], t[3])}))")
         elif op == "many": out(f"Main.ob({R(t[1])}.exists((k, v) -> {pred_kv(t[2], t[3])}))")
+        elif op == "mcmp": out(f"Str.fromInt({R(t[1])}.compare({R(t[2])}, (x, y) -> x - y))")
+        elif op == "meq": out(f"Main.ob({R(t[1])}.equal({R(t[2])}, (x, y) -> x == y))")
+        elif op == "miter":
+            body.append(f'    let _ = {R(t[1])}.iter((k, v) -> Process.println("~" :: k.toString() :: ":" :: Str.fromInt(v)));')
+            out('"end"')
+        elif op == "mmink": out(f"Main.obi({R(t[1])}.minKey())")
+        elif op == "mmaxk": out(f"Main.obi({R(t[1])}.maxKey())")
+        elif op == "scmp": out(f"Str.fromInt({R(t[1])}.compare({R(t[2])}, (x, y) -> x.value - y.value))")
+        elif op == "seq": out(f"Main.ob({R(t[1])}.equal({R(t[2])}, (x, y) -> x.value == y.value))")
+        elif op == "siter":
+            body.append(f'    let _ = {R(t[1])}.iter((e) -> Process.println("~" :: e.toString()));')
+            out('"end"')
         elif op == "sins": store(t[1], f"{R(t[2])}.insert({K(t[3])})", "ds")
         elif op == "srem": store(t[1], f"{R(t[2])}.remove({K(t[3])})", "ds")
         elif op == "shas": out(f"Main.ob({R(t[1])}.contains({K(t[2])}))")
@@ -448,6 +460,27 @@ class Spec:
         if op == "mmap": return [("m", t[1], {k: tmod(v + I(t[3]), 1000) for k, v in m[t[2]].items()})]
         if op == "mall": return [("ans", fmt_b(all(PKV(t[2], t[3], k, v) for k, v in m[t[1]].items())))]
         if op == "many": return [("ans", fmt_b(any(PKV(t[2], t[3], k, v) for k, v in m[t[1]].items())))]
+        if op in ("mcmp", "meq"):
+            xs, ys = sorted(m[t[1]].items()), sorted(m[t[2]].items())
+            if op == "meq": return [("ans", fmt_b(xs == ys))]
+            res = None
+            for (k1, v1), (k2, v2) in zip(xs, ys):
+                if k1 != k2: res = k1 - k2; break
+                if v1 != v2: res = v1 - v2; break
+            if res is None: res = 0 if len(xs) == len(ys) else (-1 if len(xs) < len(ys) else 1)
+            return [("ans", str(res))]
+        if op == "miter": return [("ans", "".join(f"{k}:{v};" for k, v in sorted(m[t[1]].items())) + "end")]
+        if op == "mmink": return [("ans", fmt_opt(min(m[t[1]]) if m[t[1]] else None))]
+        if op == "mmaxk": return [("ans", fmt_opt(max(m[t[1]]) if m[t[1]] else None))]
+        if op in ("scmp", "seq"):
+            xs, ys = sorted(s[t[1]]), sorted(s[t[2]])
+            if op == "seq": return [("ans", fmt_b(xs == ys))]
+            res = None
+            for a, b in zip(xs, ys):
+                if a != b: res = a - b; break
+            if res is None: res = 0 if len(xs) == len(ys) else (-1 if len(xs) < len(ys) else 1)
+            return [("ans", str(res))]
+        if op == "siter": return [("ans", "".join(f"{v};" for v in sorted(s[t[1]])) + "end")]
         if op == "sins": return [("s", t[1], s[t[2]] | {I(t[3])})]
         if op == "srem": return [("s", t[1], s[t[2]] - {I(t[3])})]
         if op == "shas": return [("ans", fmt_b(I(t[2]) in s[t[1]]))]
@@ -659,7 +692,9 @@ def gen_history(rng, nops, mode, weights):
             a = r('m'); b = r('m')
             if a == b: b = f"m{(int(a[1:]) + 1) % REGS}"
             ops.append(f"mpar {a} {b} {r('m')} {pk()} {c if mode != 2 else k}")
-        elif op in ("mfold", "mmin", "mmax", "msize", "ment"): ops.append(f"{op} {r('m')}")
+        elif op in ("mfold", "mmin", "mmax", "msize", "ment", "miter", "mmink", "mmaxk"): ops.append(f"{op} {r('m')}")
+        elif op in ("mcmp", "meq"):
+            a = r('m'); ops.append(f"{op} {a} {a if rng.chance(1, 5) else r('m')}")
         elif op == "mkeys": ops.append(f"mkeys {r('l')} {r('m')}")
         elif op == "mmap": ops.append(f"mmap {r('m')} {r('m')} {rng.range(0, 9)}")
         elif op in ("mall", "many"): ops.append(f"{op} {r('m')} {pk()} {c if mode != 2 else k}")
@@ -677,7 +712,9 @@ def gen_history(rng, nops, mode, weights):
             a = r('s'); b = r('s')
             if a == b: b = f"s{(int(a[1:]) + 1) % REGS}"
             ops.append(f"spar {a} {b} {r('s')} {px()} {c if mode != 2 else k}")
-        elif op in ("sfold", "smin", "smax", "ssize"): ops.append(f"{op} {r('s')}")
+        elif op in ("sfold", "smin", "smax", "ssize", "siter"): ops.append(f"{op} {r('s')}")
+        elif op in ("scmp", "seq"):
+            a = r('s'); ops.append(f"{op} {a} {a if rng.chance(1, 5) else r('s')}")
         elif op == "sels": ops.append(f"sels {r('l')} {r('s')}")
         elif op == "sfrl": ops.append(f"sfrl {r('s')} {r('l')}")
         elif op in ("sall", "sany"): ops.append(f"{op} {r('s')} {px()} {c if mode != 2 else k}")
@@ -698,9 +735,9 @@ def gen_history(rng, nops, mode, weights):
 
 W_MAP = [("mins", 22), ("mbulk", 6), ("mrem", 12), ("mget", 6), ("mhas", 3), ("mupd", 8), ("muni", 4), ("mcun", 4),
          ("mmrg", 3), ("mspl", 4), ("mfil", 4), ("mpar", 3), ("mfold", 2), ("mmin", 3), ("mmax", 3), ("msize", 2),
-         ("ment", 3), ("mkeys", 1), ("mmap", 1), ("mall", 1), ("many", 1)]
+         ("ment", 3), ("miter", 2), ("mcmp", 3), ("meq", 2), ("mmink", 1), ("mmaxk", 1), ("mkeys", 1), ("mmap", 1), ("mall", 1), ("many", 1)]
 W_SET = [("sins", 22), ("sbulk", 6), ("srem", 12), ("shas", 6), ("suni", 5), ("sint", 4), ("sdif", 4), ("ssub", 3),
-         ("sdis", 2), ("sspl", 4), ("sfil", 4), ("spar", 3), ("sfold", 3), ("smin", 3), ("smax", 3), ("ssize", 2),
+         ("sdis", 2), ("sspl", 4), ("sfil", 4), ("spar", 3), ("sfold", 3), ("smin", 3), ("smax", 3), ("ssize", 2), ("siter", 2), ("scmp", 3), ("seq", 2),
          ("sels", 2), ("sfrl", 2), ("sall", 1), ("sany", 1), ("smap", 2), ("lcons", 4)]
 W_LIST = [("lcons", 20), ("lof", 2), ("lapp", 6), ("lrev", 5), ("lrap", 4), ("lfil", 5), ("lmap", 4), ("lfmp", 4),
           ("llen", 4), ("lfst", 3), ("lrst", 4), ("lfold", 4), ("lfdr", 4), ("lhas", 3), ("lall", 2), ("lany", 2),
@@ -768,9 +805,26 @@ def run_impl(histories, ts=True, timeout_ms=30000):
     outs = [json.loads(l) for l in p.stdout.decode("utf-8", "replace").split("\n") if l.strip()]
     header = outs[0].get("header") if outs and "header" in outs[0] else None
     ans = outs[1:] if header is not None else outs
+    for a in ans:
+        for side in ("wasm", "ts"):
+            if isinstance(a.get(side), dict) and "lines" in a[side]:
+                a[side]["lines"] = fold_iter(a[side]["lines"])
     if len(ans) != len(histories):
         raise RuntimeError(f"c18 harness returned {len(ans)} answers for {len(histories)} programs: {p.stderr.decode()[-400:]}")
     return header, ans
+
+
+def fold_iter(lines):
+    """`iter` prints one `~…` line per callback; fold them into the op's own (following) line."""
+    out, acc = [], ""
+    for l in lines:
+        if l.startswith("~"):
+            acc += l[1:] + ";"
+        else:
+            out.append(acc + l); acc = ""
+    if acc:
+        out.append(acc)
+    return out
 
 
 def canon_impl(h, run):
@@ -803,11 +857,8 @@ def examine(ctx, h, res, model, label, stats, report=True):
             a = wl[i] if i < len(wl) else "<missing>"
             b = tl[i] if i < len(tl) else "<missing>"
             if a != b:
-                if h[i].split(" ")[0] in ("smin", "smax") and a == "some 1" and b == "none":
-                    verdicts.append(("C18-F10", i, "TypeScript run reads Some(Int(1)) as None"))
-                else:
-                    verdicts.append((None, i, f"TypeScript and WebAssembly runs differ at `{h[i]}`: wasm `{a[:120]}` ts `{b[:120]}`"))
-                    break
+                verdicts.append((None, i, f"TypeScript and WebAssembly runs differ at `{h[i]}`: wasm `{a[:120]}` ts `{b[:120]}`"))
+                break
         if t["end"] != w["end"]:
             verdicts.append((None, min(len(tl), len(h) - 1), f"TypeScript and WebAssembly runs end differently: wasm end={w['end']} ts end={t['end']}"))
     fails, pre = oracle(h, w["lines"][:len(h)], w["end"])
@@ -836,9 +887,7 @@ def shrink(ctx, h, want_msg_kind):
         return h
 
 
-PROBES = {
-    "C18-F10": ["sins s0 s0 1", "smin s0"],
-}
+PROBES = {}   # no open finding left; witnesses of fixed findings are regression inputs in corpus/C18
 
 
 def load_corpus():
@@ -952,13 +1001,13 @@ def run(ctx):
     return ctx.finish(res, trusted=common.TRUSTED_COMMON + [
         "hand-written models Model/StdMap.lean, StdSet.lean, StdList.lean (transcriptions of std/*.sam), tied by exact comparison of every printed tree shape/answer",
         "the samlang compiler, Node 22/V8 (wasm + TS) as executors of the std source; vlib/c18.py Spec (Python dict/set/list) as the independent specification",
-        "not modelled: Map.compare/equal, Set.compare/equal, iter, std/option.sam, std/result.sam, std/tuples.sam (exercised only as part of the driver programs)",
+        "not modelled: List.iter, std/option.sam, std/result.sam, std/tuples.sam (exercised only as part of the driver programs)",
     ])
 
 
-PENDING = ["Map.update / customizedUnion / union / merge refinement theorems (modelled and differentially checked, not proved)",
-           "Set.subset / Set.map refinement theorems (modelled and differentially checked, not proved)",
-           "Map.compare/equal, Set.compare/equal, iter: not modelled"]
+PENDING = ["Map/Set: nothing of std/map.sam, std/set.sam, std/list.sam is left unmodelled except List.iter (pure side effect)",
+           "customizedUnion / merge / Set.union / subset / Set.map keep a fuel argument in the model; the theorems show any fuel above the operand sizes suffices and the history theorems use internally computed fuel",
+           "std/option.sam, std/result.sam, std/tuples.sam: exercised by the driver programs only"]
 
 def replay(ctx, path):
     common.build_harness("C18"); common.build_lean(["drv-c18"])
